@@ -39,4 +39,38 @@ package log
 //@ func (*UniqueLogger).LogResults
 //@   props C14
 //@   observe uniqResults, LogResults
-//@   entry row wrap: [call uniqResults(l, ctx, results) ; go (*UniqueLogger).uniqResults$1{results: bind_u, in: bind_in} ; call LogResults(l.logger, ctx, bind_u2)] when u == u2 && in == results -> exit
+//@   entry row wrap: [call uniqResults(l, ctx, results) as (u) ; call LogResults(l.logger, ctx, bind_u2)] when u == u2 -> exit
+
+// plain writer: String once, one Fprintf of that string followed by a newline; its error is the result
+//@ func (*PlainResultWriter).Write
+//@   props C14 C08
+//@   observe String, fmt.Fprintf
+//@   entry row line: [call String(result) as (s) ; call fmt.Fprintf(w, "%s\n", bind_a) as (n, e)] when len(a) == 1 && istype(a[0], string) && astype(a[0], string) == s && ret == e -> exit
+
+// logger construction: writer and label are the arguments; the plain writer unless an option replaces it;
+// every option applied once, in order; --json selects the JSON writer
+//@ func JSON$1
+//@   props C14
+//@   modifies l.rw
+//@   ensures isptr(l.rw, JSONResultWriter)
+//@ func Plain$1
+//@   props C14
+//@   modifies l.rw
+//@   ensures isptr(l.rw, PlainResultWriter)
+//@ func FlushInterval$1
+//@   props C14
+//@   modifies l.flushInterval
+//@   ensures l.flushInterval == interval
+//@ func NewLogger
+//@   props C14 C08
+//@   observe o, zap.NewProduction
+//@   entry row zaperr: [call zap.NewProduction(_) as (z, e)] when e != nil && ret0 == nil && ret1 == e -> exit
+//@   entry row init:   [call zap.NewProduction(_) as (z, e)] when e == nil && l.w == w && l.label == label && isptr(l.rw, PlainResultWriter) && l.zapl == z -> loop 0
+//@   loop 0 row apply: [call o(l)] -> continue
+//@   loop 0 row done:  [] when isptr(ret0, logger) && asptr(ret0, logger) == l && ret1 == nil -> exit
+//@ func NewUniqueLogger
+//@   props C14
+//@   ensures ret.logger == logger
+//@ func (*UniqueLogger).uniqResults
+//@   props C14 C12
+//@   entry row start: [go (*UniqueLogger).uniqResults$1{results: bind_u, in: bind_i, ctx: bind_c}] when ret == u && i == in && c == ctx -> exit
